@@ -145,6 +145,9 @@ def run(tier, seed):
     run_r("C16", tier, seed, sc, [acc_C16], 1 if tier == "quick" else 2, on_exc, WIT, RULE, res=res, label="halt_grid", split=0)
     deep = {k: v for k, v in sc.items() if k in ("halt:exec7-L2-one_market", "halt:noexec_long_then_exec-L1-two_markets_two_rules",
                                                   "halt:exec3_exec4-L2-two_markets_both_one_rule", "halt:sweep-L1-1m")}
+    if tier != "quick":
+        # bound 3 on all four took 1.6 h; the whole grid is already at bound 2 in this tier, so only the smallest one goes deeper
+        deep = {k: v for k, v in deep.items() if k == "halt:sweep-L1-1m"}
     run_r("C16", tier, seed, deep, [acc_C16], 2 if tier == "quick" else 3, on_exc, WIT, RULE, res=res, label="halt_grid_deeper")
     return res
 
